@@ -5,11 +5,13 @@ import H2V.Lemmas.ConnFidPLbl
   frame is queued, `P.cut k` + `ClosedAt` where a queue is cleared, `P.write` on the write path.
   (Text after ConnWakePStepSend.lean: same proof engineering, other relation.)
 -/
+set_option linter.unusedSectionVars false
 namespace H2V.Lemmas.ConnFidP
 open H2V H2V.Model H2V.Model.Conn H2V.Lemmas.ConnWakeP
 
 section
-variable {P : Perm} {s0 s : Streams}
+variable {P : Perm} {s0 s : Streams} (hg : P.gone)
+include hg
 
 @[grind ←] theorem qPush_acc (q : QName) (k : Nat) (h : Tr P s0 s) : Tr P s0 (s.qPush q k).1 := by
   unfold Streams.qPush; fid_grind
@@ -75,7 +77,7 @@ variable {P : Perm} {s0 s : Streams}
   unfold Streams.popPendingOpen; fid_grind
 /-- `self.in_flight_data_frame = m` -/
 theorem mark_acc (m : InFlightData) (hw : P.write) (h : Tr P s0 s) : Tr P s0 (s.modPrio (markF m)) := by
-  refine h.lbl (.mark m) ⟨Nat.le_refl _, fun _ a ha => Or.inl ⟨a, ha, ES.mark_any m a⟩, ?_, rfl, by intro _ _ e; cases e⟩ hw
+  refine h.lbl (.mark m) ⟨Nat.le_refl _, fun _ a ha => Or.inl ⟨a, ha, ES.mark_any m a⟩, ?_, rfl, (by intro _ _ e hk; cases e; simp [Lbl.key?] at hk), (by intro _ e; cases e)⟩ hw
   intro k b hn hs
   have : s.store.get? k = some b := hs
   rw [hn] at this; cases this
@@ -88,6 +90,7 @@ grind_pattern mark_acc => Tr P s0 (s.modPrio (markF m))
 @[grind ←] theorem bufferOut_acc (w : Writer) (f : Streams.OutFrame) (hw : P.write) (h : Tr P s0 s) : Tr P s0 (s.bufferOut w f).1 := by
   unfold Streams.bufferOut; simp only [markF_fold]; fid_grind
 
+omit hg in
 @[grind =] theorem stream_key (s : Streams) (k : Nat) : (s.stream k).key = k := stream_key' s k
 
 @[grind ←] theorem pfFinish_acc (k : Nat) (b : Bool) (f : Streams.OutFrame) (h : Tr P s0 s) :
@@ -106,6 +109,7 @@ theorem pfData_acc (sd : Stream → Nat → Nat → Stream × List String × Boo
   clear hsd hb
   fid_grind
 
+omit hg in
 @[grind →] theorem closedAt_of_scheduled {s : Streams} {k : Nat} {r : Reason}
     (h : (s.stream k).state.getScheduledReset = some r) : ClosedAt s k := by
   intro a ha
@@ -124,9 +128,9 @@ theorem popFrameC_acc (sd : Stream → Nat → Nat → Stream × List String × 
     fid_fold
     have hd : ∀ {s : Streams} (k len : Nat) (F : SFrame) (rest : List SFrame), (s.stream k).pendingSend = F :: rest →
         Tr P s0 s → Tr P s0 (pfData sd s k len rest) :=
-      fun k len F rest hq h => pfData_acc sd hsd k len F rest hq hw h
+      fun k len F rest hq h => pfData_acc hg sd hsd k len F rest hq hw h
     clear hsd
-    have hq0 := qPop_acc (P := P) .pendingSend h
+    have hq0 := qPop_acc hg .pendingSend h
     split
     · next s1 heq => rw [heq] at hq0; exact hq0
     · next s1 id heq =>
@@ -144,8 +148,8 @@ theorem popFrameC_acc (sd : Stream → Nat → Nat → Stream × List String × 
           have hcq := clearQueue_acc id (hc id) hcl hq0
           simp only []
           fid_grind
-      · next heos fields rest hps => exact pfFinish_acc _ _ _ (pop_acc id _ rest hps hw hq0)
-      · next reason rest hps => exact pfFinish_acc _ _ _ (pop_acc id _ rest hps hw hq0)
+      · next heos fields rest hps => exact pfFinish_acc hg _ _ _ (pop_acc id _ rest hps hw hq0)
+      · next reason rest hps => exact pfFinish_acc hg _ _ _ (pop_acc id _ rest hps hw hq0)
       · next pk pid fields rest hps =>
         have h2 := pop_acc id _ rest hps hw hq0
         clear hd hq0 hps
@@ -156,7 +160,7 @@ theorem popFrameC_acc (sd : Stream → Nat → Nat → Stream × List String × 
 
 @[grind ←] theorem popFrame_acc (n m : Nat) (hw : P.write) (hc : CutAll P) (h : Tr P s0 s) :
     Tr P s0 (Streams.popFrame n s m).1 := by
-  rw [popFrameC.eq]; exact popFrameC_acc _ sendData_quiet' n m hw hc h
+  rw [popFrameC.eq]; exact popFrameC_acc hg _ sendData_quiet' n m hw hc h
 
 @[grind ←] theorem prioBufferPendingLoop_acc (n : Nat) (w : Writer) (hw : P.write) (hc : CutAll P) (h : Tr P s0 s) :
     Tr P s0 (Streams.prioBufferPendingLoop n s w).1 := by
@@ -183,10 +187,12 @@ theorem popFrameC_acc (sd : Stream → Nat → Nat → Stream × List String × 
     (hA : P.ok (.push k (.headers false f))) (h : Tr P s0 s) :
     Tr P s0 (s.sendInterimInformationalHeaders k f).1 := by
   unfold Streams.sendInterimInformationalHeaders; fid_grind
+omit hg in
 theorem setReset_closed' (a : Stream) (r : Reason) (i : Initiator) : (a.setReset r i).1.state.isClosed = true := by
   unfold Stream.setReset Stream.notifySend Stream.notifyPush Stream.notifyRecv
   cases a.sendTask <;> cases a.openTask <;> cases a.recvTask <;> cases a.pushTask <;> rfl
 
+omit hg in
 theorem get?_modStreamW (s : Streams) (k : Nat) (f : Stream → Stream × List String) (hf : ∀ a, (f a).1.key = a.key) (j : Nat) :
     (s.modStreamW k f).store.get? j = if j = k then (s.store.get? k).map (fun a => (f a).1) else s.store.get? j := by
   unfold Streams.modStreamW
@@ -205,6 +211,7 @@ theorem get?_modStreamW (s : Streams) (k : Nat) (f : Stream → Stream × List S
     · next e => subst e; simp [ha]
     · rfl
 
+omit hg in
 theorem closedAt_setReset (s : Streams) (k : Nat) (r : Reason) (i : Initiator) :
     ClosedAt (s.modStreamW k fun st => st.setReset r i) k := by
   intro a ha
@@ -258,7 +265,7 @@ theorem keepHead_acc (k : Nat) (hc : P.cut k) (hcl : ClosedAt s k) (h : Tr P s0 
     split
     · rw [nk_mod, clearQueue_store, nk_mod, nk_mod]
     · rw [clearQueue_store, nk_mod, nk_mod]
-  refine h.lbl (.cut k 1) ⟨Nat.le_of_eq hn.symm, ?_, ?_, ?_, by intro _ _ e; cases e⟩ hc
+  refine h.lbl (.cut k 1) ⟨Nat.le_of_eq hn.symm, ?_, ?_, ?_, (by intro _ _ e _ hcut; cases e; simp [Lbl.isCut] at hcut), (by intro _ e; cases e)⟩ hc
   · intro j a ha
     refine Or.inl ?_
     rw [hg]
@@ -286,9 +293,9 @@ theorem sendSendReset_acc (k : Nat) (r : Reason) (i : Initiator) (hc : P.cut k) 
     have hcl := closedAt_setReset s k r i
     split
     · exact h1
-    · refine reclaimAllCapacity_acc k (queueFrame_acc k _ (ok_push_reset P k r) ?_)
+    · refine reclaimAllCapacity_acc hg k (queueFrame_acc hg k _ (ok_push_reset r hc) ?_)
       split
-      · exact keepHead_acc k hc hcl h1
+      · exact keepHead_acc hg k hc hcl h1
       · exact clearQueue_acc k hc hcl h1
 grind_pattern sendSendReset_acc => Tr P s0 (s.sendSendReset k r i)
 @[grind ←] theorem scheduleImplicitReset_acc (k : Nat) (r : Reason) (h : Tr P s0 s) :
@@ -315,11 +322,11 @@ theorem tryForEach_acc (f : Streams → Nat → Streams × Option PErr)
 theorem storeTryForEach_acc (f : Streams → Nat → Streams × Option PErr)
     (hf : ∀ {s : Streams} (k : Nat), Tr P s0 s → Tr P s0 (f s k).1) (h : Tr P s0 s) :
     Tr P s0 (s.storeTryForEach f).1 := by
-  unfold Streams.storeTryForEach; exact tryForEach_acc f hf _ _ _ h
+  unfold Streams.storeTryForEach; exact tryForEach_acc hg f hf _ _ _ h
 theorem storeForEach_acc (f : Streams → Nat → Streams)
     (hf : ∀ {s : Streams} (k : Nat), Tr P s0 s → Tr P s0 (f s k)) (h : Tr P s0 s) :
     Tr P s0 (s.storeForEach f) := by
-  unfold Streams.storeForEach; exact storeTryForEach_acc _ (fun k h => hf k h) h
+  unfold Streams.storeForEach; exact storeTryForEach_acc hg _ (fun k h => hf k h) h
 @[grind ←] theorem decStreamWindow_acc (dec acc k : Nat) (h : Tr P s0 s) :
     Tr P s0 (Streams.decStreamWindow dec acc s k).1 := by
   unfold Streams.decStreamWindow; fid_grind
@@ -332,8 +339,8 @@ theorem tryForEachAcc_acc (f : Nat → Streams → Nat → Streams × Nat × Opt
 @[grind ←] theorem sendApplyRemoteSettings_acc (a b c : Option Nat) (hc : CutAll P) (h : Tr P s0 s) :
     Tr P s0 (s.sendApplyRemoteSettings a b c).1 := by
   unfold Streams.sendApplyRemoteSettings
-  have h1 := @tryForEachAcc_acc P s0
-  have h2 := @storeTryForEach_acc P s0
+  have h1 := fun s => @tryForEachAcc_acc P s0 s hg
+  have h2 := fun s => @storeTryForEach_acc P s0 s hg
   fid_grind
 @[grind ←] theorem sendClearQueues_acc (h : Tr P s0 s) : Tr P s0 s.sendClearQueues := by
   unfold Streams.sendClearQueues; fid_grind
